@@ -16,6 +16,70 @@ use serde::{Deserialize, Serialize};
 pub const NAMES: [&str; 10] = ["a", "b", "c", "user", "x1", "count", "item_name", "größe", "n", "val"];
 pub const FLAGS: [&str; 12] = [">3", "<3", "^7", ">08.2", "+", ".3", ">03", "?", "08", "-<6", ".0", "#?"];
 
+/// Fill characters of generated format specs: the default, plus every character that also has a meaning
+/// somewhere else in the spec grammar (a sloppy flags parser could trip over them), plus plain and
+/// non-ASCII ones. `{` and `}` are left out: they cannot be spelled in the attribute string without
+/// escaping rules the macro does not document.
+pub const FILLS: [char; 15] = [' ', '0', '*', ':', '#', '?', '+', '-', '.', 'x', '<', '>', '^', '_', 'é'];
+
+/// A structured std format spec `[[fill]align][+][#][0][width][.precision][type]`.
+#[derive(Serialize, Deserialize, Debug, Clone, PartialEq)]
+pub struct FlagSpec {
+    /// index into FILLS (only used together with an alignment)
+    pub fill: Option<u8>,
+    /// 0 = none, 1 = `<`, 2 = `>`, 3 = `^`
+    pub align: u8,
+    pub sign: bool,
+    pub alt: bool,
+    pub zero: bool,
+    pub width: Option<u8>,
+    pub precision: Option<u8>,
+    /// 0 = Display, 1 = `?`, 2 = `x?`, 3 = `X?` (plain `x`/`e` are not accepted by the macros for any value:
+    /// the formatter is applied to an `emit::Value`, which implements Display and Debug only)
+    pub ty: u8,
+}
+
+impl FlagSpec {
+    pub fn fill_char(&self) -> Option<char> {
+        self.fill.map(|f| FILLS[f as usize % FILLS.len()])
+    }
+
+    /// The flags as written in `#[emit::fmt("...")]` and after the `:` of the std spec. Never empty.
+    pub fn text(&self) -> String {
+        let mut s = String::new();
+        let align = match (self.align % 4, self.fill) {
+            (0, Some(_)) => 2,
+            (a, _) => a,
+        };
+        if align != 0 {
+            if let Some(c) = self.fill_char() {
+                s.push(c);
+            }
+            s.push(['<', '<', '>', '^'][align as usize]);
+        }
+        if self.sign {
+            s.push('+');
+        }
+        if self.alt {
+            s.push('#');
+        }
+        if self.zero {
+            s.push('0');
+        }
+        if let Some(w) = self.width {
+            let _ = write!(s, "{w}");
+        }
+        if let Some(p) = self.precision {
+            let _ = write!(s, ".{p}");
+        }
+        s.push_str(["", "?", "x?", "X?"][self.ty as usize % 4]);
+        if s.is_empty() {
+            s.push('1');
+        }
+        s
+    }
+}
+
 #[derive(Serialize, Deserialize, Debug, Clone, Copy, PartialEq, Eq)]
 pub enum SiteKind {
     Format,
@@ -52,6 +116,20 @@ pub struct HoleSpec {
     pub place: Place,
     /// index into FLAGS
     pub flags: Option<u8>,
+    /// a structured spec; takes precedence over `flags`
+    #[serde(default)]
+    pub spec: Option<FlagSpec>,
+}
+
+impl HoleSpec {
+    /// The argument of `#[emit::fmt(..)]`, if the hole has one.
+    pub fn flags_text(&self) -> Option<String> {
+        match (&self.spec, self.flags) {
+            (Some(s), _) => Some(s.text()),
+            (None, Some(f)) => Some(FLAGS[f as usize % FLAGS.len()].to_string()),
+            (None, None) => None,
+        }
+    }
 }
 
 #[derive(Serialize, Deserialize, Debug, Clone, PartialEq)]
@@ -200,7 +278,7 @@ fn model_parts(site: &Site, names: &[&str], source_text: bool) -> Vec<(bool, Str
                 }
             }
             SegSpec::Hole(spec) => {
-                out.push((true, names[h].to_string(), spec.flags.is_some()));
+                out.push((true, names[h].to_string(), spec.flags_text().is_some()));
                 h += 1;
             }
         }
@@ -260,7 +338,8 @@ pub fn site_source(id: u32, site: &Site) -> String {
             SegSpec::Hole(h) => {
                 let name = r.hole_names[hi];
                 hi += 1;
-                let flags = h.flags.map(|f| FLAGS[f as usize % FLAGS.len()]);
+                let flags_owned = h.flags_text();
+                let flags = flags_owned.as_deref();
                 let debug = h.value.is_debug();
                 let mut attrs = String::new();
                 if let Some(f) = flags {
